@@ -49,6 +49,44 @@ def _np():
     return numpy
 
 
+import threading as _threading
+_THREAD_INTERNALS = frozenset(vars(_threading.Thread()).keys())
+
+
+def public_vars(o):
+    """vars(o) without the bookkeeping attributes of threading.Thread (locks cannot be copied or
+    compared; the contracts never speak about them)."""
+    d = vars(o)
+    if isinstance(o, _threading.Thread):
+        return {k: v for k, v in d.items() if k not in _THREAD_INTERNALS or k == '_name'}
+    return d
+
+
+def snapshot(x):
+    """Deep copy for `old`: like copy.deepcopy, but Thread objects are copied without their locks."""
+    import copy
+    memo = {}
+
+    def pre(v, seen):
+        if id(v) in seen:
+            return
+        seen.add(id(v))
+        if isinstance(v, _threading.Thread):
+            new = object.__new__(type(v))
+            memo[id(v)] = new
+            for k, w in public_vars(v).items():
+                pre(w, seen)
+            new.__dict__.update({k: copy.deepcopy(w, memo) for k, w in public_vars(v).items()})
+        elif isinstance(v, dict):
+            for w in v.values():
+                pre(w, seen)
+        elif isinstance(v, (list, tuple)):
+            for w in v:
+                pre(w, seen)
+    pre(x, set())
+    return copy.deepcopy(x, memo)
+
+
 def same(a, b):
     """Deep structural equality of two values / object graphs (used for 'nothing changed')."""
     np = _np()
@@ -70,7 +108,7 @@ def same(a, b):
     if isinstance(a, (int, float, str, bytes, bool, type(None))):
         return a == b
     if hasattr(a, '__dict__'):
-        return same(vars(a), vars(b))
+        return same(public_vars(a), public_vars(b))
     return a == b
 
 
@@ -214,6 +252,10 @@ def line_kind(line):
     if re.fullmatch('[ \t\r\n]+', line):
         return 0
     return 1 if line[:1] == '%' else 2
+
+
+def starts_with(x, lit):
+    return x.startswith(lit)
 
 
 def run_real(fn, *args):
